@@ -74,7 +74,7 @@ PROPS = {
     },
     'C03': {
         'level': 'proof',
-        'verus': [{'group': 'c03_lists_arith'}, _sg('shard_lists'), _sg('shard_sets'), _sg('shard_hashes'), _cg('cmd_lists', True), _cg('cmd_sets'), _cg('cmd_hashes')],
+        'verus': [{'group': 'c03_lists_arith'}, _sg('shard_lists'), _sg('shard_sets'), _sg('shard_hashes'), _cg('cmd_lists', True), _cg('cmd_sets'), _cg('cmd_hashes'), _cg('cmd_setops')],
         'explanation': 'index arithmetic of list commands against spec_range',
     },
     'C04': {
@@ -88,7 +88,7 @@ PROPS = {
         # C06 = the safety obligations (overflow, bounds, slice ranges, unwrap, preconditions of callees such as the
         # allocation budget) of EVERY unit under contract, for all argument values
         'verus': [{'group': g, 'kinds': ['safety', 'requires-at-call', 'decreases', 'invariant']} for g in
-                  ['shard_core', 'shard_strings', 'shard_lists', 'shard_sweeper', 'shard_sets', 'shard_hashes', 'shard_zsets', 'cmd_strings', 'cmd_lists', 'cmd_sets', 'cmd_hashes', 'c03_lists_arith', 'c04_zset_arith', 'c19_scan', 'c20_parser', 'c20_serializer', 'c10_bgsave', 'c11_aof', 'c09_rdb', 'c13_blocking', 'c07_transactions', 'shard_flush', 'c14_pubsub', 'srv_strings', 'srv_zsets', 'cmd_scan']]
+                  ['shard_core', 'shard_strings', 'shard_lists', 'shard_sweeper', 'shard_sets', 'shard_hashes', 'shard_zsets', 'cmd_strings', 'cmd_lists', 'cmd_sets', 'cmd_hashes', 'c03_lists_arith', 'c04_zset_arith', 'c19_scan', 'c20_parser', 'c20_serializer', 'c10_bgsave', 'c11_aof', 'c09_rdb', 'c13_blocking', 'c07_transactions', 'shard_flush', 'c14_pubsub', 'srv_strings', 'srv_zsets', 'cmd_scan', 'cmd_setops']]
                  # server-level units: their index/slice/overflow/unwrap/termination obligations only (their call preconditions are model permissions, not crashes)
                  + [{'group': g, 'kinds': ['safety', 'decreases']} for g in ['srv_exec', 'srv_frame', 'srv_conn', 'srv_auth', 'srv_push', 'srv_notify', 'srv_aof', 'srv_select', 'srv_wake', 'srv_pubsub']],
         'kani': STREAM_KANI[:1] + RDB_TOTAL_KANI,
@@ -96,7 +96,7 @@ PROPS = {
     },
     'C07': {
         'level': 'proof',
-        'verus': [{'group': 'c07_transactions'}, {'group': 'srv_exec'}, {'group': 'srv_frame'}, {'group': 'srv_push'}],
+        'verus': [{'group': 'c07_transactions'}, {'group': 'srv_exec'}, {'group': 'srv_frame'}, {'group': 'srv_push'}, {'group': 'srv_notify'}],
         'tables': [{'name': 'should_queue_command', 'file': 'src/storage/commands/transactions.rs', 'fn': 'should_queue_command',
                     'extra_names': ['MULTI', 'EXEC', 'DISCARD', 'WATCH', 'UNWATCH'],
                     'expect_true': lambda names: set(names) - {'MULTI', 'EXEC', 'DISCARD', 'WATCH', 'UNWATCH'},
@@ -153,7 +153,7 @@ PROPS = {
     },
     'C18': {
         'level': 'proof',
-        'verus': [{'group': 'srv_select'}, {'group': 'srv_frame'}, {'group': 'srv_exec'}, _cg('cmd_strings', True), _cg('cmd_lists'), _cg('cmd_sets'), _cg('cmd_hashes'), {'group': 'shard_flush', 'exclude_units': SHARD_VALUE_UNITS}],
+        'verus': [{'group': 'srv_select'}, {'group': 'srv_frame'}, {'group': 'srv_exec'}, {'group': 'c13_blocking', 'units': ['notify_served_arm']}, _cg('cmd_strings', True), _cg('cmd_lists'), _cg('cmd_sets'), _cg('cmd_hashes'), {'group': 'shard_flush', 'exclude_units': SHARD_VALUE_UNITS}],
         'explanation': 'the db index along the direct and the EXEC path: SELECT (refusal / per-connection effect), process_frame dispatches with the issuing connection\'s selection, EXEC runs the queue on the connection\'s database, get_shard maps db to a shard of that database, the command handlers under contract read and write only (db, .) entries of the reference dataset, flush of a shard touches that shard only',
     },
     'C19': {
